@@ -293,7 +293,7 @@ def _add_or_set(kind, axis):
             # use lemma.fold_add for the appended names, lemma mem-infirst for the argument
             path.assume([seqs.st_fold_facts(d.P0 if axis == 'object' else d.O0, xs.s, n), seqs.st_mem_infirst(xs.s)])
             if kind == 'set':
-                # use lemma.fold_dedup (assumed): |= of Unique(xs) appends the same names in the same order as |= of xs
+                # use lemma.fold_dedup (Lean: lemmas/Seq.lean lemma_fold_dedup): |= of Unique(xs) appends the same names in the same order as |= of xs
                 path.assume(seqs.st_fold_dedup(d.P0 if axis == 'object' else d.O0, xs.s))
             if axis == 'object':
                 path.oblige('post/objects', 'post', O == add1(d.O0, x.t))
@@ -1052,7 +1052,7 @@ def _remove_empty(axis):
 for _ax in ('object', 'property'):
     _nm = 'remove_empty_%s' % ('objects' if _ax == 'object' else 'properties')
     register(Unit('definitions.' + _nm, D, 'MutableMixin.' + _nm, _unit(_remove_empty(_ax)),
-                  assumptions=ASSUME + ['lemma.erase_fold_keep (ASSUMED, validated by enumeration): removing the names outside T one by one leaves keep(s, T)',
+                  assumptions=ASSUME + ['lemma.erase_fold_keep (Lean: lemmas/Seq.lean lemma_erase_fold_keep; SMT<->Lean transcription by hand): removing the names outside T one by one leaves keep(s, T)',
                                         'contract of MutableSet.remove on Unique (unit stdlib.MutableSet.remove)'],
                   linkage=[('concepts.Definition.' + _nm, None)]))
 
@@ -1130,7 +1130,7 @@ def _triple_init(path):
 
 register(Unit('definitions.__init__', D, 'Triple.__init__', _unit(_triple_init),
               assumptions=['requires rectangular input (one row per object, one cell per property); zip pairs position-wise',
-                           'contract of Unique.__init__ (unit tools.Unique.__init__); lemma.fold_len (ASSUMED, validated by enumeration)'],
+                           'contract of Unique.__init__ (unit tools.Unique.__init__); lemma.fold_len (Lean: lemmas/Seq.lean lemma_fold_len; validated by enumeration)'],
               linkage=[('concepts.Definition.__init__', None)]))
 
 
